@@ -83,6 +83,7 @@ def main(chk):
     from vlib import mirsym
     mir = mirsym.dump_mir()
     jobs = [(r_induct, (mir, name, n, chk.seed), {}) for name in RING for n in ((1, 2, 3, 4, 5) if q else (1, 2, 3, 4, 5, 6, 8, 12))]
+    jobs += [(r_induct_all_periods, (mir, name, chk.seed), {}) for name in ALLP]
     chk.add(run_jobs(jobs))
     chk.add(kani.run_family_set('C12', hs, jobs=14, timeout_s=240 if q else 1200))
     chk.assumptions += ['Kani models the dev profile of /repo: overflow checks and debug assertions on; every Rust panic and CBMC memory-safety check is a violation',
@@ -170,3 +171,70 @@ def r_induct(mir, name, n, seed):
                       bounds=dict(engine='R', indicator=name, n=n, history='all stream lengths by induction on the cursor invariant', invariant_states=len(inv),
                                   inputs='all reals (NaN/inf reaching comparisons: Kani part)'),
                       sample={'invariant_set': str(inv[:8]), 'step': 'next(symbolic input) from symbolic buffers'})
+
+
+# ------------------------------------------------------------------------------------------------ engine R: EVERY period
+# For the indicators whose next() has no loop over the window (SMA, WMA, SD, ROC, MFI) the same inductive step is taken with the
+# PERIOD SYMBOLIC over 1..usize::MAX: the ring buffer becomes an abstract array of symbolic length (reads arbitrary, writes dropped),
+# the cursors are symbolic integers satisfying the invariant.  Integer widths are taken from the MIR (u32 products overflow at 2^32).
+# A feasible failing assertion is confirmed natively by actually reaching the cursor state (count inputs, then one more).
+ALLP = {'SMA': ('index', 'count', 0), 'WMA': ('index', 'count', 0), 'SD': ('index', 'count', 0), 'ROC': ('index', 'count', 1), 'MFI': ('index', 'count', 0)}
+
+
+def r_induct_all_periods(mir, name, seed):
+    fam = 'R:C12 cursor induction %s, EVERY period 1..2^60 (symbolic), every history length' % name
+    f1, f2, extra = ALLP[name]
+    P = z3.Int('P'); I = z3.Int('I'); C = z3.Int('C')
+    inv = [P >= 1, P <= 2 ** 60, I >= 0, I < P, C >= 0, C <= P + extra]          # a Vec<f64> cannot hold more than isize::MAX / 8 = 2^60 elements
+    b = dict(engine='R', indicator=name, period='symbolic: every period 1..2^60 (the largest Vec<f64> that can exist)', history='every length (induction on the cursor invariant index < period, count <= period%s)' % ('+1' if extra else ''),
+             buffer='abstract array of symbolic length: reads arbitrary reals, writes dropped')
+    ex = Executor(mir, assumptions=inv)
+    ex.abstract_arrays = True
+    try:
+        inst = RInst.create(ex, name, [P], None)
+        st = inst.state()
+        vals = []
+        for k_, v in enumerate(st.f):
+            nm = st.names[k_]
+            if nm == f1: vals.append(I)
+            elif nm == f2: vals.append(C)
+            elif isinstance(v, F): vals.append(z3.Real('acc_' + nm))
+            else: vals.append(v)
+        ex.heap[inst.ptr.oid] = Agg(st.kind, vals, st.names)
+        npan = len(ex.panics)
+        x = z3.Real('x') if IND[name]['scalar'] else tuple(z3.Real('b_' + f) for f in 'ohlcv')
+        inst.feed(x)
+        post = inst.state()
+        pI, pC = post.f[post.names.index(f1)], post.f[post.names.index(f2)]
+    except PathDead as e:
+        return fam_result(fam, 'R', 'undecided', required=False, detail='path dead: %r' % (e,), bounds=b)
+    except (Unsupported, ValueError, AttributeError, IndexError) as e:
+        return fam_result(fam, 'R', 'undecided', required=False, detail='R cannot encode: %r' % (e,), bounds=b)
+    obligations = [(cond, 'no failing assertion: ' + msg[:70]) for (cond, msg, fn) in ex.panics[npan:]]
+    obligations.append((z3.Not(z3.And(rcore.to_z3(pI) >= 0, rcore.to_z3(pI) < P, rcore.to_z3(pC) >= 0, rcore.to_z3(pC) <= P + extra)), 'cursor invariant re-established'))
+    done, status, detail, replay = 0, 'ok', '', None
+    for cond, lab in obligations:
+        s_ = z3.Solver(); s_.set('timeout', 30000)
+        s_.add(*inv); s_.add(cond)
+        r = s_.check()
+        if r == z3.unsat:
+            done += 1; continue
+        if r != z3.sat:
+            status, detail = 'undecided', 'solver %s on: %s' % (r, lab); continue
+        m = s_.model()
+        p_, c_ = m.eval(P, model_completion=True).as_long(), m.eval(C, model_completion=True).as_long()
+        # confirm natively by reaching the state: period p_, c_ inputs, then one more (only if that is affordable)
+        if p_ <= 200000 and c_ <= 200000:
+            feed = (lambda i: 'next a %r' % (1.0 + (i % 7))) if IND[name]['scalar'] else (lambda i: 'bar a 1 2 0.5 %r 3' % (1.0 + (i % 7)))
+            lines = ['new a %s %d' % (name, p_)] + [feed(i) for i in range(c_ + 2)]
+            rep = native.run_script(lines, 'dev')
+            if any(r_[0] == 'panic' for r_ in rep):
+                k = [r_[0] for r_ in rep].index('panic')
+                status, replay = 'violation', lines[:k + 1]
+                detail = '%s(%d).next() panics at call %d (%s)' % (name, p_, k, lab)
+                break
+        status = 'undecided' if status != 'violation' else status
+        detail = detail or 'assertion may fail from cursor state P=%d, count=%d (not confirmed natively): %s' % (p_, c_, lab)
+    return fam_result(fam, 'R', status, required=False if status != 'violation' else True, detail=detail, replay=replay, obligations=len(obligations), discharged=done,
+                      symbolic_inputs=4, witness='alive', functions=sorted(ex.called), lib_models=sorted(ex.lib_called), bounds=b,
+                      sample={'state': 'period P, index I, count C symbolic with 1 <= P, I < P, C <= P%s' % ('+1' if extra else ''), 'obligations': [l for _, l in obligations][:6]})
